@@ -287,3 +287,42 @@ mod test {
     Ok(())
   }
 }
+
+#[cfg(feature = "verif-hooks")]
+pub mod verif_hooks {
+  //! Re-exports for the verification harness: the private `position_for_offset` and the
+  //! fields of the `InputEdit` that `String::accept_edit` builds.
+  use super::*;
+
+  /// `position_for_offset(input, offset)` as (row, byte column)
+  pub fn position_for_offset(input: &[u8], offset: usize) -> (u32, u32) {
+    let p = super::position_for_offset(input, offset);
+    (p.row(), p.column())
+  }
+
+  /// `[start_byte, old_end_byte, new_end_byte, start row, start column, old end row,
+  /// old end column, new end row, new end column]`
+  pub fn input_edit_fields(e: &InputEdit) -> [u32; 9] {
+    let (s, o, n) = (
+      e.start_position(),
+      e.old_end_position(),
+      e.new_end_position(),
+    );
+    [
+      e.start_byte(),
+      e.old_end_byte(),
+      e.new_end_byte(),
+      s.row(),
+      s.column(),
+      o.row(),
+      o.column(),
+      n.row(),
+      n.column(),
+    ]
+  }
+
+  /// `String::accept_edit` on `text` (edited in place): the fields of the returned `InputEdit`
+  pub fn accept_edit_string(text: &mut String, edit: &Edit<String>) -> [u32; 9] {
+    input_edit_fields(&text.accept_edit(edit))
+  }
+}
